@@ -540,6 +540,14 @@ func Files() []FileSpec {
 			h.field("ws", 2, Rep, M, fopt{typeName: "Wkt"})
 			h.field("ts", 3, Opt, M, fopt{typeName: wkt("Timestamp")})
 		}})
+	out = append(out, FileSpec{Name: "p3mapimp", Syntax: "proto3", Only: []Runtime{GV2, GV1}, Ext: []string{"google/protobuf/duration.proto", "google/protobuf/struct.proto"},
+		Cells: "proto3: the ONLY references to other packages are map values (message and enum valued)",
+		build: func(b *fb) {
+			m := b.msg("OnlyMaps")
+			m.mapField("md", 1, kindByName("string"), kindByName("message"), wkt("Duration"))
+			m.mapField("mn", 2, kindByName("int32"), kindByName("enum"), wkt("NullValue"))
+			m.field("x", 3, Opt, kindByName("int32"), fopt{})
+		}})
 	out = append(out, FileSpec{Name: "p2wkt", Syntax: "proto2", Only: []Runtime{GV2, GV1}, Ext: []string{wktFiles[0], wktFiles[1], wktFiles[2], wktFiles[5], wktFiles[6]},
 		Cells: "proto2: required / optional / repeated well-known-type fields and an extension whose value is a well-known type",
 		build: func(b *fb) {
